@@ -361,11 +361,38 @@ func GenHistory(t *rapid.T, b Bias) History {
 		case "delete":
 			g.closeAll(t)
 			var mint, maxt int64
-			switch rapid.IntRange(0, 5).Draw(t, "delclass") {
+			switch rapid.IntRange(0, 8).Draw(t, "delclass") {
 			case 0:
 				mint, maxt = math.MinInt64, g.now-int64(rapid.IntRange(0, 1500).Draw(t, "dback"))
 			case 1:
 				mint, maxt = g.now-int64(rapid.IntRange(0, 1500).Draw(t, "dback")), math.MaxInt64
+			case 2, 3, 4:
+				// ranges ending or starting exactly on a structural boundary: the head's lower bound
+				// (= newest block's end), a series' newest sample, a block range boundary
+				var bounds []int64
+				if g.m.Head.MinValid != math.MinInt64 {
+					bounds = append(bounds, g.m.Head.MinValid, g.m.Head.MinValid-1)
+				}
+				for _, ser := range g.m.Series {
+					if ser.HasLast {
+						bounds = append(bounds, ser.LastT)
+					}
+				}
+				bounds = append(bounds, rangeEnd(g.now, g.cfg.ChunkRange)-g.cfg.ChunkRange, g.now)
+				b0 := rapid.SampledFrom(bounds).Draw(t, "dbound")
+				if rapid.Bool().Draw(t, "dends") {
+					maxt = b0 + int64(rapid.IntRange(-1, 1).Draw(t, "dedge"))
+					mint = maxt - int64(rapid.SampledFrom([]int{0, 1, 30, 700, 2500}).Draw(t, "dlen2"))
+					if rapid.IntRange(0, 3).Draw(t, "dopen") == 0 {
+						mint = math.MinInt64
+					}
+				} else {
+					mint = b0 + int64(rapid.IntRange(-1, 1).Draw(t, "dedge"))
+					maxt = mint + int64(rapid.SampledFrom([]int{0, 1, 30, 700, 2500}).Draw(t, "dlen2"))
+					if rapid.IntRange(0, 3).Draw(t, "dopen") == 0 {
+						maxt = math.MaxInt64
+					}
+				}
 			default:
 				mint = g.now - int64(rapid.IntRange(0, 3000).Draw(t, "dfrom"))
 				maxt = mint + int64(rapid.SampledFrom([]int{0, 1, 5, 50, 400, 1200}).Draw(t, "dlen"))
